@@ -52,7 +52,7 @@ def h_tokens(k0: int, k1: int, k2: int, k3: int, k4: int, k5: int, k6: int, k7: 
     op, kind = op_of(P("op"))
     name = op.name
     d = mkdata([k0, k1, k2, k3, k4, k5, k6, k7], [n0, n1, n2, 0], [p0, p1, p2], [b0, b1, b2])
-    o = Opts(fl=[P("fl", "agen")] * 4, ffl=P("ffl", "adef"))
+    o = Opts(fl=(P("fls") or [P("fl", "agen")] * 4), ffl=P("ffl", "adef"))
     Wa, Ws = World("a", susp=x, fn_susp=y), World("s")
     D = Driver(Wa, sync_only=False)
     ok = True
